@@ -317,6 +317,16 @@ def run_unit(u, scratch, want_trace=True):
         cmd += ["--apply-loop-contracts"]
     cmd += [gb, gbi]
     rc, out, err, dt, to = run(cmd, 900, log)
+    # a callee that the (changed) code no longer calls cannot be replaced: drop it from
+    # the list and retry, instead of reporting a tool error
+    for _retry in range(8):
+        mm = re.search(r"Function to replace '(\w+)' not found", out + err)
+        if not (rc != 0 and mm and mm.group(1) in cmd):
+            break
+        k = cmd.index(mm.group(1))
+        del cmd[k - 1:k + 1]
+        r.setdefault("replace_dropped", []).append(mm.group(1))
+        rc, out, err, dt, to = run(cmd, 900, log)
     if rc != 0 or to:
         r["reason"] = "goto-instrument failed: " + (err.strip().splitlines()[-1] if err.strip() else "timeout")
         r["detail"] = (out + err)[-3000:]
